@@ -59,12 +59,19 @@ REC_SETUP = [
                                       "formula": "People.lookupRecords(team=$id, order_by=\"-age\").name"}],
      # RecordSet -> RefList column -> field (composed relations across two hops)
      ["AddColumn", "People", "f_tm", {"type": "Any", "isFormula": True,
-                                     "formula": "sorted(Teams.lookupRecords(title=$team.title).members.name)"}]],
+                                     "formula": "sorted(Teams.lookupRecords(title=$team.title).members.name)"}],
+     # People sorts before Teams: f_tm2 is dirty for its own reason ($age) while the lookup it
+     # reads through f_tm gets a new match in the same bundle (lookups must be brought up first)
+     ["AddColumn", "People", "f_tm2", {"type": "Any", "isFormula": True,
+                                      "formula": "len($f_tm) * 100 + ($age if isinstance($age, int) else 0)"}],
+     # the whole ChoiceList cell used as a (hashable) lookup key
+     ["AddColumn", "People", "f_tags", {"type": "Any", "isFormula": True,
+                                       "formula": "len(People.lookupRecords(tags=$tags))"}]],
     [["BulkAddRecord", "Teams", [None, None], {"title": ["red", "blue"]}],
      ["BulkAddRecord", "People", [None, None, None], {
          "name": ["ann", "bob", "cy"], "age": [30, 20, 20], "boss": [0, 1, 1],
          "tags": [["L", "a"], None, ["L", "a", "b"]], "team": [1, 1, 2]}],
-     ["BulkUpdateRecord", "Teams", [1, 2], {"members": [["L", 1, 2], ["L", 3]]}]],
+     ["BulkUpdateRecord", "Teams", [1, 2], {"members": [["L", 1, 2, 1], ["L", 3]]}]],
 ]
 
 
@@ -109,6 +116,8 @@ class WRec(World):
       A(("rem T%d" % t, [["RemoveRecord", "Teams", t]]))
     for t in T[:1]:
       A(("upd T%d members None" % t, [["UpdateRecord", "Teams", t, {"members": None}]]))
+      # drops one of two mentions of the same row (the row stays referenced)
+      A(("upd T%d members drop dup" % t, [["UpdateRecord", "Teams", t, {"members": ["L"] + P[1:2] + P[:1]}]]))
       if not self.reduced:
         A(("upd T%d title" % t, [["UpdateRecord", "Teams", t, {"title": "green"}]]))
         A(("upd T%d members dup" % t, [["UpdateRecord", "Teams", t, {"members": ["L"] + P[:1] + P[:1]}]]))
@@ -122,6 +131,16 @@ class WRec(World):
                            ["UpdateRecord", "Teams", T[0] if T else 1, {"members": ["L", -1]}]]))
       A(("add+rem same", [["AddRecord", "People", -1, {"name": "gone", "team": 1}],
                           ["RemoveRecord", "People", -1]]))
+      # a row added with a temporary id, referenced through it, and removed through it again
+      A(("tmpid add+ref+rem", [["AddRecord", "People", -1, {"name": "tmp", "age": 20, "team": 1}],
+                               ["UpdateRecord", "Teams", T[0] if T else 1, {"members": ["L", -1]}],
+                               ["UpdateRecord", "People", P[0] if P else 1, {"boss": -1}],
+                               ["RemoveRecord", "People", -1]]))
+      # a lookup gets a new match while a formula that reads it (in a table that sorts first) is
+      # dirty for another reason
+      if len(T) >= 2 and P:
+        A(("upd P age + T title", [["UpdateRecord", "People", P[0], {"age": 8}],
+                                   ["UpdateRecord", "Teams", T[1], {"title": "red"}]]))
       # natural failures
       A(("FAIL upd formula col", [["UpdateRecord", "People", P[0] if P else 1, {"f_age2": 5}]]))
       A(("FAIL second action", [["UpdateRecord", "People", P[0] if P else 1, {"age": 99}],
@@ -545,6 +564,9 @@ class W2Way(World):
       if hb('zb'):
         bvals['zb'] = 3
       A_(("add B", [["AddRecord", "B", None, bvals]]))
+      if ha('x'):
+        A_(("tmpid add A x2 + rem first", [["AddRecord", "A", -1, {"x": 1}], ["AddRecord", "A", -2, {"x": 1}],
+                                           ["RemoveRecord", "A", -1]]))
       # type switches
       if ha('x'):
         A_(("modcol A.x RefList", [["ModifyColumn", "A", "x", {"type": "RefList:B"}]]))
@@ -657,6 +679,12 @@ class WTrig(World):
           "a": [doc.eng.tables['T'].get_column('a').raw_get(R[0]), 77]}]]))
       A(("two actions a then b", [["UpdateRecord", "T", R[0], {"a": 33}],
                                   ["UpdateRecord", "T", R[0], {"b": 34}]]))
+      if ht('g') and ht('t_err'):
+        # trigger cells change in several rows, a formula->data conversion forces the
+        # recalculation in mid-bundle, then only some of those rows are removed
+        A(("bulkupd a + g todata + rem", [["BulkUpdateRecord", "T", R[:2], {"a": [5, 6]}],
+                                          ["ModifyColumn", "T", "g", {"isFormula": False}],
+                                          ["RemoveRecord", "T", R[0]]]))
     for r in R[:1]:
       A(("rem T%d" % r, [["RemoveRecord", "T", r]]))
       if ht('a'):
